@@ -17,6 +17,7 @@ RULE = ("cases enumerate a fixed grid of (class, parameter) cells reaching every
         "case; stage 1: n = 20000 draws, flag at p < 1e-5; stage 2 (flagged only): fresh seed, n = 300000, violation "
         "iff p < 1e-7 again; probabilities are asked again after integral-valued floats / bools / non-integers on the same and on an equal fresh instance; cdf outside the support and inverse cdf at 0, 1 and outside [0, 1]; non-trivial = cell with a non-degenerate distribution whose sample passed through both "
         "tests; distinct = canonical (class, parameters) hash")
+RULE += '; for the truncated normal also the cdf pair of the distribution before truncation'
 ASSUMPTIONS = ["false-alarm probability per statistical test <= 1e-12 (two independent stages 1e-5 x 1e-7); distortions with "
                "KS distance below ~0.005 are not detectable at these sample sizes",
                "scipy.stats closed forms under the documented parameterisation are the independent reference",
@@ -55,6 +56,9 @@ GRID = [
     ["DistNormalTrunc", [0.0, 1.0, -1.0, 1.0]], ["DistNormalTrunc", [0.0, 1.0, 0.0, math.inf]], ["DistNormalTrunc", [0.0, 1.0, -math.inf, -0.5]],
     ["DistNormalTrunc", [0.0, 1.0, 3.0, 4.2]], ["DistNormalTrunc", [10.0, 2.0, 9.99, 10.01]], ["DistNormalTrunc", [1.0, 1.0, 0.0, 51.0]],
     ["DistNormalTrunc", [0.0, 1.0, -8.0, 8.0]],
+    # bounds that are large compared to sigma (relative tests against a bound are then as wide as the interval)
+    ["DistNormalTrunc", [1000.0, 0.01, 999.99, 1000.02]], ["DistNormalTrunc", [-5000.0, 0.05, -math.inf, -4999.95]],
+    ["DistNormalTrunc", [1e6, 1.0, 1e6 - 1.0, 1e6 + 2.0]],
     ["DistPearson5", [0.5, 1.0]], ["DistPearson5", [1.0, 2.0]], ["DistPearson5", [3.0, 0.5]], ["DistPearson5", [12.0, 10.0]],
     ["DistPearson6", [0.5, 0.7, 1.0]], ["DistPearson6", [2.0, 3.0, 2.0]], ["DistPearson6", [1.0, 1.0, 0.5]], ["DistPearson6", [5.0, 0.5, 1.0]],
     ["DistPoisson", [0.5]], ["DistPoisson", [1.0]], ["DistPoisson", [4.5]], ["DistPoisson", [30.0]], ["DistPoisson", [100.0]], ["DistPoisson", [80]],
@@ -664,6 +668,32 @@ def _cdf_checks(ctx, dist, ref, cls, args, info):
         if abs(back - y) > tol:
             ctx.viol(f"cdf-icdf-not-inverse:{cls}", {**info, "y": y, "icdf": x, "cdf_of_icdf": back})
             return False
+    if cls == "DistNormalTrunc":
+        # the pair offered for the distribution before truncation: that of Normal(mu, sigma), whatever the bounds are
+        from scipy import stats as st
+        mu, sigma = float(args[0]), float(args[1])
+        prev = -math.inf
+        for y in [1e-6, 1e-4, 0.01, 0.125, 0.5, 0.875, 0.99, 1 - 1e-4, 1 - 1e-6] + list(np.linspace(0.001, 0.999, 200)):
+            y = float(y)
+            ctx.count("icdf_roundtrips")
+            try:
+                x = dist.inverse_cumulative_probability_not_truncated(y)
+                back = dist.cumulative_probability_not_truncated(x)
+            except Exception as e:
+                ctx.viol(f"icdf-raises:{cls}:not-truncated:{type(e).__name__}", {**info, "y": y, "exc": repr(e)})
+                return False
+            w = float(st.norm.ppf(y, mu, sigma))
+            if abs(x - w) > 1e-6 * sigma * (1 + abs((w - mu) / sigma)) or abs(back - y) > 1e-6:
+                ctx.viol(f"cdf-icdf-not-inverse:{cls}:not-truncated", {**info, "y": y, "icdf": x, "normal_quantile": w, "cdf_of_icdf": back})
+                return False
+        for x in sorted([float(args[2]), float(args[3])] + list(np.linspace(mu - 6 * sigma, mu + 6 * sigma, 61))):
+            if x != x or abs(x) == math.inf:
+                continue
+            c = dist.cumulative_probability_not_truncated(x)
+            if abs(c - float(st.norm.cdf(x, mu, sigma))) > 1e-12 or c < prev:
+                ctx.viol(f"cdf-differs-from-closed-form:{cls}:not-truncated", {**info, "x": x, "declared": c, "closed_form": float(st.norm.cdf(x, mu, sigma))})
+                return False
+            prev = c
     return True
 
 
